@@ -280,7 +280,13 @@ nni_msg_get_pipe(const nni_msg *m)
 nni_msg *
 nni_msg_pull_up(nni_msg *m)
 {
-	/* header merged in front of the body, message made unique */
+	/* header merged in front of the body, message made unique.  As in core/message.c a shared message has to
+	 * be duplicated; when that allocation fails NULL is returned and the original is NOT consumed */
+	if (m->refcnt != 1 && env_msg_fail_at >= 0 && env_msg_allocs == env_msg_fail_at) {
+		env_msg_fail_at = -1;
+		env_msg_failed  = 1;
+		return (NULL);
+	}
 	nni_msg *u = nni_msg_unique(m);
 	size_t   h = u->hlen;
 	CHECK(h <= u->off, "env_msg: pull_up within the model's headroom");
